@@ -183,6 +183,7 @@ type summary struct {
 	DetChecks   int            `json:"determinism_rechecks"`
 	DetFail     []string       `json:"determinism_failures"`
 	Violations  int            `json:"violations"`
+	KnownRuns   int            `json:"known_finding_runs"`
 	MaxSteps    int            `json:"max_steps_in_a_run"`
 	WallS       float64        `json:"wall_s"`
 	Samples     []any          `json:"samples"`
@@ -269,6 +270,29 @@ func cmdCheck(args []string) int {
 	os.MkdirAll(replayDir(), 0o755)
 	os.MkdirAll(filepath.Join(verifDir, "evidence"), 0o755)
 
+	// the listed (unrepaired) findings of this property, for the workers: a run that matches one is
+	// counted and does not stop the worker
+	knownFile := ""
+	{
+		type ke struct {
+			Check    string `json:"check"`
+			Harness  string `json:"harness"`
+			Contains string `json:"message_contains"`
+		}
+		var ks []ke
+		for _, k := range loadKnown() {
+			if k.Status == "known" && k.Property == *prop {
+				ks = append(ks, ke{k.Check, k.Harness, k.Contains})
+			}
+		}
+		if len(ks) > 0 {
+			b, _ := json.Marshal(ks)
+			knownFile = filepath.Join(scratch, "known.json")
+			if err := os.WriteFile(knownFile, b, 0o644); err != nil {
+				die(2, "%v", err)
+			}
+		}
+	}
 	W := *workers
 	if W > tc.runs {
 		W = tc.runs
@@ -286,7 +310,7 @@ func cmdCheck(args []string) int {
 			defer wg.Done()
 			cmd := exec.Command(bin, "-test.run", "^TestWorker$", "-test.timeout", "0", "-test.cpu", "1",
 				"-prop", *prop, "-seed", strconv.FormatUint(seed, 10), "-from", strconv.Itoa(w), "-stride", strconv.Itoa(W),
-				"-count", strconv.Itoa(per), "-wall", fmt.Sprint(tc.wallS), "-out", outs[w], "-replaydir", replayDir(), "-tier", *tier)
+				"-count", strconv.Itoa(per), "-wall", fmt.Sprint(tc.wallS), "-out", outs[w], "-replaydir", replayDir(), "-tier", *tier, "-known", knownFile)
 			rl := filepath.Join(scratch, fmt.Sprintf("race.%d", w))
 			cmd.Env = append(os.Environ(), "GOMAXPROCS=2", "GORACE=halt_on_error=0 log_path="+rl, "BBSIM_RACELOG="+rl)
 			// watchdog: a worker that outlives its wall cap by far is infrastructure trouble
@@ -352,6 +376,7 @@ func cmdCheck(args []string) int {
 				total.DetChecks += s.DetChecks
 				total.DetFail = append(total.DetFail, s.DetFail...)
 				total.Inconcl += s.Inconcl
+				total.KnownRuns += s.KnownRuns
 				if s.MaxSteps > total.MaxSteps {
 					total.MaxSteps = s.MaxSteps
 				}
@@ -396,9 +421,23 @@ func cmdCheck(args []string) int {
 	perCheck := map[string]int{}
 	var chosen []violation
 	skipped := 0
+	isKnown := func(v violation) bool {
+		for _, k := range known {
+			if k.Status == "known" && k.Property == *prop && k.Check == v.Check && (k.Harness == "" || k.Harness == v.Harness) &&
+				(k.Contains == "" || strings.Contains(v.Msg, k.Contains)) {
+				return true
+			}
+		}
+		return false
+	}
+	skippedKnown := 0
 	for _, v := range viols {
 		if perCheck[v.Check] >= 3 || len(chosen) >= 12 {
-			skipped++
+			if isKnown(v) {
+				skippedKnown++
+			} else {
+				skipped++
+			}
 			continue
 		}
 		perCheck[v.Check]++
@@ -455,6 +494,9 @@ func cmdCheck(args []string) int {
 	}
 	if skipped > 0 {
 		fmt.Printf("bbsim: %d further violating runs were found (replay files written) but not re-verified individually\n", skipped)
+	}
+	if total.KnownRuns > 0 {
+		fmt.Printf("bbsim: %d runs in all matched a listed known finding (%d replay files written, %d of them not re-verified individually)\n", total.KnownRuns, len(viols)-skipped-reported, skippedKnown)
 	}
 	wall := time.Since(start).Seconds()
 	if len(infra) > 0 {
@@ -612,6 +654,7 @@ func writeEvidence(prop, tier string, seed int64, t summary, distinct, violation
 		"strategy_mix":                 t.Strategies,
 		"determinism_rechecks":         t.DetChecks,
 		"determinism_failures":         len(t.DetFail),
+		"known_finding_runs":           t.KnownRuns,
 		"inconclusive_linearizability": t.Inconcl,
 		"workers":                      workers,
 		"build_s":                      buildS,
